@@ -1652,6 +1652,7 @@ class Cell(Bucket):
 
             if app.blacklisted:
                 _LOGGER.info('App %s is blacklisted', app.name)
+                app.release_identity()
                 continue
 
             if app.final_rank == _UNPLACED_RANK:
@@ -1659,8 +1660,8 @@ class Cell(Bucket):
                     assert app.server in servers
                     assert app.has_identity()
                     servers[app.server].remove(app.name)
-                    app.release_identity()
 
+                app.release_identity()
                 continue
 
             restore = {}
@@ -1711,6 +1712,7 @@ class Cell(Bucket):
             assert app.server is None
 
             if app.schedule_once and app.evicted:
+                app.release_identity()
                 continue
 
             # Check if placement is feasible.
@@ -1718,6 +1720,7 @@ class Cell(Bucket):
                 _LOGGER.info(
                     'Placement not feasible: %s %r', app.name, app.shape()
                 )
+                app.release_identity()
                 continue
 
             if not self.put(app):
